@@ -155,10 +155,11 @@ class NetworkXGraphStorageDisjoint:
         def extract_graph(self, graph_id: str) -> nx.Graph or None:
             self.lock.acquire()
             try:
-                graph = self.graphs[graph_id]
+                # the copy is taken inside the critical section: it walks the graph's dictionaries, which
+                # add_blank_node_to_graph changes under the same lock
+                return self.graphs[graph_id].copy()
             finally:
                 self.lock.release()
-            return graph.copy()
 
         def get_graph(self, graph_id) -> nx.Graph:
             # return the store for this graph
